@@ -83,7 +83,9 @@ def split_command_line(command_line):
     state_doublequote = 3
     # The state when consuming whitespace between commands.
     state_whitespace = 4
-    state = state_basic
+    # Start out consuming whitespace, so that leading whitespace does not
+    # produce a spurious empty first argument.
+    state = state_whitespace
 
     for c in command_line:
         if state == state_basic or state == state_whitespace:
